@@ -63,6 +63,7 @@ Clauses(ev, run) ==
     <<"DisjointExact", Flag(ev, "disjoint") => (~conf /\ Eq(m, ev.expected))>>,
     <<"LinesSurvive", Flag(run, "lines") => LinesSurvive(b, ev.local, ev.remote, m)>>,
     <<"LinesProvenance", (Flag(run, "lines") \/ Has(run, "side")) => LinesProvenance(b, ev.local, ev.remote, m)>>,
+    <<"LinesProvenanceModGlue", (Flag(run, "lines") \/ Has(run, "side")) => LinesProvenanceModGlue(b, ev.local, ev.remote, m)>>,
     <<"SameLineFlagged",
         (Flag(ev, "flag") /\ Flag(run, "lines")) =>
           /\ conf
